@@ -46,8 +46,8 @@ CLAIMS = {
   note="The byte bound (MaxInuse with equally sized entries) is not decided (needs the engine's size accounting at the abstract level); stable membership is assumed (ownedPartitionCount constant across the call); deleteOnCluster is trusted for its effect on the local fragment; the background eviction worker (scanFragmentForEviction) and 'eventually disappears' (liveness) are not decided; storage.Engine.Range/Stats are assumed abstract contracts.",
   ref="DESIGN.md §4 C10, §9"),
  "C12": dict(
-  text="Proof of the store-level scan cursor: findCoefficient returns the smallest coefficient present that is greater than the given one and an error iff none is (map iteration + sort.Slice ordered by the verified less contract + scan loop, with invariants); one step of KVStore.Scan/ScanRegexMatch (scanCommon) hands back a cursor that addresses an existing table, never jumps over a table that has not been scanned (for every layout of coefficients with holes), never moves backwards, and reports the end only when no later table exists; unsigned cursor arithmetic is exact (no wrap) for table sizes up to 2^32 and coefficients below 2^30.",
-  note="table.Scan/ScanRegexMatch (the roaring-bitmap iterator loop inside one table) are trusted for the range of the cursor they return; that every present key is handed to the callback exactly once within a table, the partition-level iterator of DMap.Scan and the cluster iterator are not yet under contract; concurrent writers during a scan are not modelled.",
+  text="Proof of the store-level scan cursor: findCoefficient returns the smallest coefficient present that is greater than the given one and an error iff none is (map iteration + sort.Slice ordered by the verified less contract + scan loop, with invariants); one step of KVStore.Scan/ScanRegexMatch (scanCommon) hands back a cursor that addresses an existing table, never jumps over a table that has not been scanned (for every layout of coefficients with holes), never moves backwards, and reports the end only when no later table exists; unsigned cursor arithmetic is exact (no wrap) for table sizes up to 2^32 and coefficients below 2^30. Inside one table, Table.Scan is proved against a model of the roaring-bitmap iterator (ascending traversal of the live-offset set): offsets at or after the cursor are taken in ascending order, the cursor handed back is one past a live offset the callback accepted or 0 only when no offset is left, never behind the cursor given and always inside the table, and the table invariant is preserved.",
+  note="Table.get is trusted inside the scan loop (its effect is proved where it is inlined in Table.Get); ScanRegexMatch is trusted for its cursor range; the roaring iterator, the partition-level iterator of DMap.Scan and the cluster iterator are assumed / not under contract; a callback that stops at the very first entry of a table makes Table.Scan return 0 ('finished') - observed, callers here never do that; concurrent writers during a scan are not modelled.",
   ref="DESIGN.md §4 C12, §9"),
  "C14": dict(
   text="Proof of the counting and matching obligations of PUBLISH: PubSub.Publish returns exactly the number of messages it wrote to subscriber connections (ghost delivery counter; both Ascend passes modelled as loops over the function literals, with invariants), writes a pmessage only for a pattern that matches the channel and a message only to entries of exactly this channel; publishInternalCommandHandler replies with the number of local deliveries; publishCommandHandler replies with local deliveries plus the sum of the counts reported by every other member (loop invariant over the member list).",
